@@ -428,3 +428,68 @@ def seed_checks(facts):
             else:
                 out.append(ob("theta.seed", key, fn["pat"], "violated", "no seed-hash check of input `%s` before its entries are used: sketches built with different seeds would be combined" % p, fn["qname"]))
     return out
+
+
+def rebuild_precondition(facts):
+    """rebuild() places the pivot at index nominal_size of the consolidated entries: every call must be guarded by
+    num_entries_ STRICTLY greater than the nominal size (or the capacity, which is larger)"""
+    fns = functions_by(facts, ["theta", "tuple"])
+    out = []
+    for pat, fn in sorted(fns.items()):
+        if fn.get("rect") != "datasketches::theta_update_sketch_base":
+            continue
+        idx = [0]
+
+        def visit(n, parents):
+            if n.get("k") == "Call" and n.get("cname") == "rebuild" and (n.get("crec") or "").endswith("theta_update_sketch_base"):
+                key = "theta_update_sketch_base::%s:rebuild-precondition#%d" % (fn["name"], idx[0])
+                idx[0] += 1
+                conds = []
+                chain = list(parents) + [n]
+                for i, p in enumerate(chain[:-1]):
+                    if p.get("k") == "If" and (p.get("t") is chain[i + 1] or p.get("e") is chain[i + 1]):
+                        conds.append((strip(p["c"]), p.get("t") is chain[i + 1]))
+                ok = False
+                seen = []
+                for c, in_then in conds:
+                    if c.get("k") == "Bin" and c.get("op") in (">", ">=", "<", "<=") and in_then:
+                        l, r = txt(c["l"]), txt(c["r"])
+                        seen.append(txt(c))
+                        if l == "num_entries_" and c["op"] == ">" and ("lg_nom_size_" in r or "get_capacity(" in r):
+                            ok = True
+                        if r == "num_entries_" and c["op"] == "<" and ("lg_nom_size_" in l or "get_capacity(" in l):
+                            ok = True
+                if ok:
+                    out.append(ob("theta.rebuild-pre", key, n["loc"], "discharged", "rebuild() only when %s" % seen[0], fn["qname"]))
+                else:
+                    out.append(ob("theta.rebuild-pre", key, n["loc"], "violated", "rebuild() is reached under %s, which does not imply num_entries_ > nominal size: with exactly nominal-size entries the pivot index lies one past the consolidated entries, theta is read from an empty slot (theta becomes 0 / garbage)" % (seen or "no guard"), fn["qname"]))
+        walkp(fn["body"], visit)
+    return out
+
+
+def intersection_emptiness(facts):
+    """the intersection marks itself empty only on its OWN accumulated theta being MAX_THETA"""
+    fns = functions_by(facts, ["theta", "tuple"])
+    out = []
+    for pat, fn in sorted(fns.items()):
+        if fn.get("rect") != "datasketches::theta_intersection_base" or fn["name"] != "update":
+            continue
+        idx = [0]
+
+        def visit(n, parents):
+            if n.get("k") == "Assign" and n.get("op") == "=" and txt(n["l"]) == "table_.is_empty_" and strip(n["r"]).get("k") == "Bool" and strip(n["r"])["b"] is True:
+                key = "theta_intersection_base::update:becomes-empty#%d" % idx[0]
+                idx[0] += 1
+                guard = None
+                chain = list(parents) + [n]
+                for i in range(len(chain) - 2, -1, -1):
+                    p = chain[i]
+                    if p.get("k") == "If" and p.get("t") is chain[i + 1]:
+                        guard = txt(p["c"])
+                        break
+                if guard and "table_.theta_" in guard and "==" in guard and "sketch" not in guard:
+                    out.append(ob("theta.intersection-empty", key, n["loc"], "discharged", "is_empty_ = true only if %s" % guard, fn["qname"]))
+                else:
+                    out.append(ob("theta.intersection-empty", key, n["loc"], "violated", "the intersection marks itself empty under `%s`, which is not a test of its own accumulated theta: a result whose theta is already below 1 would be flagged empty (and all later updates ignored), depending on the order of inputs" % guard, fn["qname"]))
+        walkp(fn["body"], visit)
+    return out
